@@ -533,6 +533,17 @@ pub fn run(rep: &mut Rep) {
                         w.start(0, Kind::Pub1);
                         w.settle_check();
                     }
+                    // in every second case the first connection ends with the head of a packet (1-3 bytes) received but not
+                    // complete: nothing of it may survive into the next connection
+                    let partial = (c1 + mode as usize + c2) % 2 == 1 && matches!(cause1, TermAct::UserDisconnect | TermAct::Eof | TermAct::ReadErr | TermAct::WriteErr);
+                    if partial {
+                        let head = [0x30u8, 0x8a, 0x01];
+                        let n = 1 + (c1 + c2) % 3;
+                        w.sim.note(|| format!("deliver the first {n} bytes of a PUBLISH"));
+                        w.sim.feed(&head[..n]);
+                        w.sim.settle();
+                        rep.add("first_connection_ended_inside_a_packet", 1);
+                    }
                     apply(&mut w, Act::Term(*cause1));
                     w.settle_check();
                     w.settle_check();
@@ -586,6 +597,10 @@ pub fn run(rep: &mut Rep) {
                     // on later connections everything observed about run()'s outcome is C13's business
                     for v in w.viols.iter_mut() {
                         if v.sig.starts_with("run-returned-without-cause") && !v.props.contains(&"C13") {
+                            v.props = &["C13"];
+                        }
+                        if v.sig.starts_with("C17/reconnect-failed") {
+                            v.sig = "C13/connect-wrong-result/second-connection".into();
                             v.props = &["C13"];
                         }
                     }
